@@ -149,12 +149,16 @@ CLAIMS.update({
                 "source, the climb loop by invariant Top0(current_node) == Top0(current)): the new ExceptIf wraps the current "
                 "rule, the new Alternative / Next wraps the top of the whole rule (past every refinement that wraps it and every "
                 "alternative already attached), the new node takes exactly the slot of what it wraps and no other operand of "
-                "any node changes (nothing attached earlier is lost). Conclusion selection: ExceptIf._evaluate__ proved against "
-                "the interface plus clause S1 (at every yield its conclusion set is that of the refinement if the refinement "
-                "holds for the row, else that of the refined rule; cleared after every row).",
-                note="level other: Alternative / Next selection (ElseIf / Union streams + update_conclusion's de-duplication) and "
-                     "the application of the selected conclusions by the descriptor are covered by the bounded rule-tree "
-                     "stand-ins only (random trees against a recursive reference reading), not proved; assumption RT"),
+                "any node changes (nothing attached earlier is lost). Conclusion selection, result cache off: ExceptIf._evaluate__ "
+                "and Alternative._evaluate__ proved against the interface plus clause S1 (at every yield the node's conclusion set "
+                "is the one the rule tree prescribes: the refinement's if it holds for the row, else the refined rule's; the "
+                "first branch of an else-if chain that holds, nothing otherwise; cleared after every row; modulo "
+                "update_conclusion's de-duplication, which has its own contract), with ElseIf._evaluate__ re-proved with the "
+                "extra clause S2 (operand flags and operand conclusion sets at each yield) that Alternative relies on.",
+                note="level other: a known finding is recorded (result cache on: a refined alternative replayed from the else-if "
+                     "cache loses its conclusion); Next / Union and the application of the selected conclusions by the descriptor "
+                     "(Add / Set, QueryObjectDescriptor._evaluate_ in rule mode) are covered by the bounded rule-tree stand-ins only "
+                     "(random trees over one and two variables against a recursive reference reading); assumption RT"),
     'C14': dict(level='other', text="Function contracts of the registry mechanism, each proved from the current source: symbol(cls) "
                 "installs hybrid_new as __new__ (and nothing else) with the class's own __new__ or object.__new__ as allocator; "
                 "hybrid_new registers nothing and allocates nothing in symbolic mode and calls "
